@@ -573,6 +573,8 @@ def default_table():
         'cuqi.distribution._normal': dict(erf=erf_shim),
         'cuqi.distribution._gaussian': dict(nplinalg=NP.linalg, sps=sps, spa=SPA(), splinalg=SPLinalg(), sparse_cholesky=sparse_cholesky_shim),
         'cuqi.utilities._utilities': dict(issparse=SPA().issparse),
+        'cuqi.model._model': dict(csc_matrix=csc_matrix_shim, hstack=hstack_shim),
+        'cuqi.testproblem._testproblem': dict(fftconvolve=fftconvolve_shim),
     }
 
 
@@ -718,8 +720,16 @@ def symbolize_operators(obj):
         m = getattr(o, '_matrix', None)
         if m is not None and _sparse.issparse(m):
             o._matrix = STag(_to_obj_matrix(m), m.format)
-        for nm in ('_prec_op', '_diff_op'):
-            if hasattr(o, nm): visit(getattr(o, nm))
+        for nm in ('_prec_op', '_diff_op', 'model'):
+            try:
+                if hasattr(o, nm): visit(getattr(o, nm))
+            except Exception: pass
+        for fn in ('_forward_func', '_adjoint_func'):
+            f = getattr(o, fn, None)
+            for cell in (getattr(f, '__closure__', None) or ()):
+                try: v = cell.cell_contents
+                except ValueError: continue
+                if hasattr(v, '_matrix'): visit(v)
     visit(obj)
     return obj
 
@@ -851,3 +861,49 @@ def sparse_cholesky_shim(A):
     a = _obj(A)
     L = sym_cholesky(a)
     return STag(L.T, 'csc')
+
+
+# ---------------------------------------------------------------------------------------------
+# convolution / sparse assembly used by cuqi.model and cuqi.testproblem
+# ---------------------------------------------------------------------------------------------
+def fftconvolve_shim(a, b, mode='full', axes=None):
+    """contract of scipy.signal.fftconvolve: the direct-sum definition of the (full / valid / same) convolution"""
+    import scipy.signal
+    if not _issym(a, b): return scipy.signal.fftconvolve(a, b, mode=mode, axes=axes)
+    _hit('scipy.signal.fftconvolve')
+    a = _np.asarray(a, dtype=object); b = _np.asarray(b, dtype=object)
+    if a.ndim == 1:
+        a = a[:, None]; b = b[:, None]; one_d = True
+    else: one_d = False
+    (m1, n1), (m2, n2) = a.shape, b.shape
+    full = _np.empty((m1 + m2 - 1, n1 + n2 - 1), dtype=object)
+    for i in range(full.shape[0]):
+        for j in range(full.shape[1]):
+            acc = SReal(z3.RealVal(0))
+            for p in range(m2):
+                for q in range(n2):
+                    ii, jj = i - p, j - q
+                    if 0 <= ii < m1 and 0 <= jj < n1: acc = acc + a[ii, jj] * b[p, q]
+            full[i, j] = acc
+    if mode == 'full': out = full
+    elif mode == 'valid':
+        out = full[m2 - 1:m1, n2 - 1:n1]
+    elif mode == 'same':
+        r0, c0 = (m2 - 1) // 2, (n2 - 1) // 2
+        out = full[r0:r0 + m1, c0:c0 + n1]
+    else: raise ValueError(mode)
+    return out[:, 0] if one_d else out
+
+
+def csc_matrix_shim(a, *args, **k):
+    if isinstance(a, tuple) and len(a) == 2 and all(isinstance(v, (int, _np.integer)) for v in a):
+        return STag(_np.zeros(a, dtype=object), 'csc')
+    if isinstance(a, STag): return a.tocsc()
+    if _issym(a): return STag(_obj(a), 'csc')
+    return _sparse.csc_matrix(a, *args, **k)
+
+
+def hstack_shim(blocks, *args, **k):
+    if any(isinstance(b, STag) or _issym(b) for b in blocks):
+        return STag(_np.hstack([_np.asarray(_obj(b), dtype=object) for b in blocks]), 'csc')
+    return _sparse.hstack(blocks, *args, **k)
